@@ -375,6 +375,46 @@ func cmdCheck(args []string) int {
 		fmt.Printf("  failed obligation: %s (%s) at %s:%d: %s [%s]\n", o.Name, o.Kind, shortFile(o.Pos.Filename), o.Pos.Line, o.Desc, o.Result)
 		exit = 1
 	}
+	// thorough tier: replay the hand-written witnesses of this property's FIXED findings on the current tree
+	// (real executions with the race detector where it matters; a regression net, not part of the proof)
+	var witnessRuns []map[string]interface{}
+	if *tier == "thorough" {
+		var idx []struct {
+			Property, File, Pkgdir, Run, Expect string
+			Race                                bool
+		}
+		loadJSON(filepath.Join(verifRoot, "replay", "index.json"), &idx)
+		for _, w := range idx {
+			if w.Property != prop || w.Expect != "pass" {
+				continue
+			}
+			ov := map[string]interface{}{"Replace": map[string]string{filepath.Join(*repo, w.Pkgdir, "zz_verif_replay_test.go"): w.File}}
+			ovb, _ := json.Marshal(ov)
+			ovFile := filepath.Join(outDir, "witness."+w.Run+".overlay.json")
+			os.WriteFile(ovFile, ovb, 0o644)
+			args := []string{"test", "-overlay", ovFile, "-vet=off", "-count=1", "-timeout", "300s", "-tags", "badger", "-run", "^" + w.Run + "$"}
+			if w.Race {
+				args = append(args, "-race")
+			}
+			args = append(args, "./"+w.Pkgdir)
+			cmd := exec.Command("go", args...)
+			cmd.Dir = *repo
+			cmd.Env = append(os.Environ(), "GOFLAGS=-mod=mod", "GOPROXY=off", "GOSUMDB=off", "GOTOOLCHAIN=local")
+			out, err := cmd.CombinedOutput()
+			res := "pass"
+			if err != nil {
+				res = "FAIL"
+				violations++
+				path := filepath.Join(replayDir, "witness."+w.Run+".json")
+				b, _ := json.MarshalIndent(map[string]interface{}{"property": prop, "witness": w.File, "test": w.Run, "status": "witness of a fixed finding fails on the current tree", "output_tail": truncate(tailOf(string(out), 4000), 4000)}, "", " ")
+				os.WriteFile(path, b, 0o644)
+				fmt.Printf("VIOLATION property=%s replay=%s\n", prop, path)
+				fmt.Printf("  witness %s (%s) of a fixed finding fails on the current tree\n", w.Run, w.File)
+				exit = 1
+			}
+			witnessRuns = append(witnessRuns, map[string]interface{}{"test": w.Run, "file": w.File, "race": w.Race, "result": res})
+		}
+	}
 	for _, n := range missing {
 		if isKnown(n) != nil {
 			continue
@@ -567,6 +607,13 @@ func writeReplay(e *Engine, vc *VC, o *Obligation, prop, dir string) (string, bo
 func truncate(s string, n int) string {
 	if len(s) > n {
 		return s[:n] + "...[truncated]"
+	}
+	return s
+}
+
+func tailOf(s string, n int) string {
+	if len(s) > n {
+		return s[len(s)-n:]
 	}
 	return s
 }
